@@ -461,7 +461,7 @@ func Lossless(in []byte, used int, b mp4.Box, decode func([]byte) (mp4.Box, int,
 		return
 	}
 	// listed normalisation: a large-size header of a registered non-mdat box is written back compact
-	cmpIn := CompactLarge(in)
+	cmpIn := NormaliseMoov(CompactLarge(in))
 	if !bytes.Equal(out, cmpIn) {
 		mask := dc.Mask(cmpIn)
 		pos := MaskedDiff(cmpIn, out, mask)
@@ -629,6 +629,51 @@ func CompactLarge(in []byte) []byte {
 		return o
 	}
 	return rebuild(nodes[0])
+}
+
+// NormaliseMoov applies the second listed normalisation to a top-level moov box: MoovBox.AddChild inserts a
+// trak behind the last trak when that one is neither the first nor the last child so far.
+func NormaliseMoov(in []byte) []byte {
+	if len(in) < 8 || string(in[4:8]) != "moov" {
+		return in
+	}
+	nodes, ok := Scan(in, 0, len(in), 0)
+	if !ok || len(nodes) != 1 || nodes[0].HdrLen != 8 {
+		return in
+	}
+	m := nodes[0]
+	end := m.Off + m.HdrLen
+	for _, c := range m.Children {
+		if c.Off != end {
+			return in
+		}
+		end = c.Off + c.Size
+	}
+	if end != m.Off+m.Size {
+		return in
+	}
+	var cs []*Node
+	for _, c := range m.Children {
+		if c.Type == "trak" {
+			last := 0
+			for i, x := range cs {
+				if x.Type == "trak" {
+					last = i
+				}
+			}
+			if last != 0 && last != len(cs)-1 {
+				cs = append(cs[:last+2], cs[last+1:]...)
+				cs[last+1] = c
+				continue
+			}
+		}
+		cs = append(cs, c)
+	}
+	o := append([]byte{}, in[:8]...)
+	for _, c := range cs {
+		o = append(o, in[c.Off:c.Off+c.Size]...)
+	}
+	return o
 }
 
 // ---------------------------------------------------------------- mutations
